@@ -1560,6 +1560,8 @@ def execute_call(c, pool, entries, ctx, log, snaps):
     res = None
     with warnings.catch_warnings(), np.errstate(all="ignore"):
         warnings.simplefilter("ignore")
+        if _WERROR[0] and not e.plot:
+            warnings.filterwarnings("error", module=r"hydrodiy\.")
         try:
             res = e.fn(a, c["opts"])
         except Violation:
@@ -1668,6 +1670,7 @@ def scribble_result(res, pool, depth=0, arrays=None):
 
 
 _TMPDIR = [None]
+_WERROR = [False]
 
 
 def clean_tempdir():
@@ -1707,6 +1710,13 @@ def _run_session(cs, log, ctx, order_seed=None, collect=None):
     with cs.span("plan"):
         nsteps = cs.weighted("nsteps", [(60, 2), (120, 3), (250, 1), (25, 1)])
         plan = make_plan(cs, pool, entries, nsteps)
+        # a session whose process turns the warnings attributed to hydrodiy
+        # modules into errors (python -W error::Warning:hydrodiy..., a test
+        # runner's filterwarnings): a call then raises where it would warn -
+        # every time it is made, not only the first time
+        _WERROR[0] = cs.flip("warnings_as_errors", 25)
+        if _WERROR[0]:
+            ctx.hit("fault.hydrodiy_warnings_are_errors")
     log.ev("pool", len(pool.objs), pool.N, pool.M,
            [o.desc for o in pool.objs][:80])
     snaps = {o.id: snap(o.obj) for o in pool.objs}
